@@ -1,0 +1,6 @@
+//go:build verif
+
+package webrtc
+
+// VerifIsOfferer exposes isOfferer.
+func VerifIsOfferer(a, b string) bool { return isOfferer(a, b) }
